@@ -78,9 +78,21 @@ Example regression_submit_clear_leaves_residue :
                   [Submit 1 0 None; Submit 2 1 (Some 1)]) = Some true.
 Proof. vm_compute. reflexivity. Qed.
 
+(* SNOW3G-UEA2: a flush with three job-less lanes leaves key-independent garbage in them; the
+   lane the job left is exactly the reset image *)
+Example snow3g_uea2_junk_is_not_job_data :
+  option_map (fun s => idleb s && forallb (fun ln => cleanb fam_snow3g_uea2 (l_fld ln)) s &&
+                       match nth_error s 0, nth_error s 1 with
+                       | Some l0, Some l1 =>
+                           forallb fval_is_zero (l_fld l0) && existsb fval_is_junk (l_fld l1)
+                       | _, _ => false end)
+             (run fam_snow3g_uea2 (reset_state fam_snow3g_uea2 4) [Submit 3 0 None; Flush 0 0])
+  = Some true.
+Proof. vm_compute. reflexivity. Qed.
+
 (* the instance list is what the check compares the library with *)
 Example number_of_instances : List.length instances = 123.
 Proof. vm_compute. reflexivity. Qed.
 
-Example number_of_claimed_fields : List.length claimed_clean = 200.
+Example number_of_claimed_fields : (List.length claimed_clean, List.length claimed_junk) = (196, 4).
 Proof. vm_compute. reflexivity. Qed.
